@@ -820,6 +820,340 @@ theorem aspaAddFold (orig : AspaDefs) (holdsAsn : Nat → Bool) (adds : List Asp
         · rw [hbx] at hb'; cases hb'
         · exact ⟨x, hx', hbx⟩
 
+/-! ### Events of an ASPA update applied to the definitions -/
+
+namespace AspaDefs
+
+theorem get?_remove (s : AspaDefs) (c d : Nat) :
+    (s.remove c).get? d = if d = c then none else s.get? d := by
+  unfold remove get?
+  induction s with
+  | nil => simp
+  | cons x rest ih =>
+    simp only [List.filter_cons]
+    by_cases hx : x.customer = c
+    · have hp : (x.customer == c) = true := by simpa using hx
+      simp only [hp, Bool.not_true, Bool.false_eq_true, if_false]
+      rw [ih]
+      by_cases hd : d = c
+      · simp [hd]
+      · have : (x.customer == d) = false := by rw [hx]; simpa using fun h => hd h.symm
+        simp [hd, this]
+    · have hne : (x.customer == c) = false := by simpa using hx
+      simp only [hne, Bool.not_false, if_true, List.find?_cons]
+      by_cases heq : (x.customer == d) = true
+      · have : d ≠ c := by
+          intro h; subst h; rw [heq] at hne; cases hne
+        simp [heq, this]
+      · have heq' : (x.customer == d) = false := by simpa using heq
+        simp only [heq']
+        exact ih
+
+theorem get?_addOrReplace (s : AspaDefs) (x : AspaDef) (d : Nat) :
+    (s.addOrReplace x).get? d = if d = x.customer then some x else s.get? d := by
+  unfold addOrReplace
+  by_cases hd : d = x.customer
+  · subst hd; simp [get?]
+  · have : (x.customer == d) = false := by simpa using fun h => hd h.symm
+    have h := get?_remove s x.customer d
+    unfold get? at h ⊢
+    simp only [List.find?_cons, this, hd, if_false] at h ⊢
+    exact h
+
+theorem get?_customer (s : AspaDefs) (c : Nat) (x : AspaDef) (h : s.get? c = some x) :
+    x.customer = c := by
+  unfold get? at h
+  simpa using List.find?_some h
+
+theorem get?_applyUpdate (s : AspaDefs) (c d : Nat) (u : ProvUpdate) :
+    (s.applyUpdate c u).get? d =
+      if d = c then
+        (match s.get? c with
+         | some cur => if (cur.applyUpdate u).providers.isEmpty then none else some (cur.applyUpdate u)
+         | none => some ((⟨c, []⟩ : AspaDef).applyUpdate u))
+      else s.get? d := by
+  unfold applyUpdate
+  cases hg : s.get? c with
+  | none =>
+    simp only
+    rw [get?_addOrReplace]
+    have : ((⟨c, []⟩ : AspaDef).applyUpdate u).customer = c := rfl
+    rw [this]
+  | some cur =>
+    simp only
+    have hc : cur.customer = c := get?_customer s c cur hg
+    by_cases he : (cur.applyUpdate u).providers.isEmpty = true
+    · simp only [he, if_true]
+      rw [get?_remove]
+    · simp only [he, Bool.false_eq_true, if_false]
+      rw [get?_addOrReplace]
+      have : (cur.applyUpdate u).customer = c := by rw [← hc]; rfl
+      rw [this]
+
+end AspaDefs
+
+theorem mem_insertSorted (x y : Nat) (l : List Nat) : y ∈ insertSorted x l ↔ y = x ∨ y ∈ l := by
+  induction l with
+  | nil => simp [insertSorted]
+  | cons z rest ih =>
+    unfold insertSorted
+    by_cases h : x ≤ z
+    · simp [h]
+    · simp only [h, if_false, List.mem_cons, ih]
+      constructor
+      · rintro (h1 | h1 | h1)
+        · exact Or.inr (Or.inl h1)
+        · exact Or.inl h1
+        · exact Or.inr (Or.inr h1)
+      · rintro (h1 | h1 | h1)
+        · exact Or.inr (Or.inl h1)
+        · exact Or.inl h1
+        · exact Or.inr (Or.inr h1)
+
+theorem mem_sortNat (y : Nat) (l : List Nat) : y ∈ sortNat l ↔ y ∈ l := by
+  unfold sortNat
+  induction l with
+  | nil => simp
+  | cons x rest ih => simp [List.foldr_cons, mem_insertSorted, ih]
+
+theorem mem_pushed (added kept : List Nat) (p : Nat) :
+    p ∈ added.foldl (fun acc a => if acc.contains a then acc else acc ++ [a]) kept ↔
+      p ∈ kept ∨ p ∈ added := by
+  induction added generalizing kept with
+  | nil => simp
+  | cons a rest ih =>
+    simp only [List.foldl_cons]
+    rw [ih]
+    by_cases h : kept.contains a = true
+    · have ha : a ∈ kept := by simpa using h
+      simp only [h, if_true, List.mem_cons]
+      constructor
+      · rintro (h1 | h1)
+        · exact Or.inl h1
+        · exact Or.inr (Or.inr h1)
+      · rintro (h1 | h1 | h1)
+        · exact Or.inl h1
+        · exact Or.inl (h1 ▸ ha)
+        · exact Or.inr h1
+    · simp only [h, Bool.false_eq_true, if_false]
+      simp [or_assoc]
+
+theorem mem_applyUpdate (d : AspaDef) (u : ProvUpdate) (p : Nat) :
+    p ∈ (d.applyUpdate u).providers ↔ (p ∈ d.providers ∧ p ∉ u.removed) ∨ p ∈ u.added := by
+  unfold AspaDef.applyUpdate
+  simp only
+  rw [mem_sortNat, mem_pushed]
+  simp
+
+/-- Same customer, same providers up to order. -/
+def SameProviders (a b : Option AspaDef) : Prop :=
+  match a, b with
+  | none, none => True
+  | some x, some y => x.customer = y.customer ∧ ∀ p, p ∈ x.providers ↔ p ∈ y.providers
+  | _, _ => False
+
+theorem sameProviders_refl (a : Option AspaDef) : SameProviders a a := by
+  cases a with
+  | none => trivial
+  | some x => exact ⟨rfl, fun _ => Iff.rfl⟩
+
+theorem aspaBase_get? (s : AspaDefs) (removed : List Nat) (c : Nat) (h : c ∉ removed) :
+    (aspaBase s removed).get? c = s.get? c := by
+  unfold aspaBase AspaDefs.get?
+  induction s with
+  | nil => rfl
+  | cons x rest ih =>
+    simp only [List.filter_cons]
+    by_cases hx : (x.customer == c) = true
+    · have : x.customer = c := by simpa using hx
+      have hnm : x.customer ∉ removed := by rw [this]; exact h
+      simp [hnm, hx]
+    · have hx' : (x.customer == c) = false := by simpa using hx
+      by_cases hr : removed.contains x.customer = true
+      · simp only [hr, Bool.not_true, Bool.false_eq_true, if_false, List.find?_cons, hx']
+        exact ih
+      · simp only [hr, Bool.not_false, if_true, List.find?_cons, hx']
+        exact ih
+
+theorem applyAspaEvs_snoc (s : AspaDefs) (evs : List AspaEv) (e : AspaEv) :
+    applyAspaEvs s (evs ++ [e]) = applyAspaEv (applyAspaEvs s evs) e := by
+  unfold applyAspaEvs; rw [List.foldl_append]; rfl
+
+/-- During the removal loop the events produce the running copy. -/
+theorem aspaRemoveFold_applied (s : AspaDefs) (rest : List Nat) (acc acc' : AspaDefs × List AspaEv)
+    (ha : applyAspaEvs s acc.2 = acc.1) (h : foldlE aspaRemoveStep acc rest = .ok acc') :
+    applyAspaEvs s acc'.2 = acc'.1 := by
+  induction rest generalizing acc with
+  | nil => simp [foldlE] at h; subst h; exact ha
+  | cons c rest ih =>
+    unfold foldlE at h
+    cases hs : aspaRemoveStep acc c with
+    | error e => rw [hs] at h; cases h
+    | ok a1 =>
+      rw [hs] at h
+      simp only at h
+      apply ih a1 _ h
+      unfold aspaRemoveStep at hs
+      split at hs
+      · cases hs
+      · simp only [Except.ok.injEq] at hs
+        subst hs
+        simp only
+        rw [applyAspaEvs_snoc, ha]; rfl
+
+/-- The addition loop, when no customer is listed twice and none of the listed customers is
+also removed: the events produce the running copy, up to the order of providers. -/
+theorem aspaAddFold_applied (s : AspaDefs) (holdsAsn : Nat → Bool) (removed : List Nat)
+    (adds : List AspaDef) (acc acc' : AspaDefs × List AspaEv) (done : List Nat)
+    (hnodup : (done ++ adds.map (·.customer)).Nodup)
+    (hdisj : ∀ d ∈ adds, d.customer ∉ removed)
+    (hI1 : ∀ c, SameProviders ((applyAspaEvs s acc.2).get? c) (acc.1.get? c))
+    (hI2 : ∀ c, c ∉ removed → c ∉ done → (applyAspaEvs s acc.2).get? c = s.get? c)
+    (h : foldlE (aspaAddStep s holdsAsn) acc adds = .ok acc') :
+    ∀ c, SameProviders ((applyAspaEvs s acc'.2).get? c) (acc'.1.get? c) := by
+  induction adds generalizing acc done with
+  | nil => simp [foldlE] at h; subst h; exact hI1
+  | cons d rest ih =>
+    unfold foldlE at h
+    cases hs : aspaAddStep s holdsAsn acc d with
+    | error e => rw [hs] at h; cases h
+    | ok a1 =>
+      rw [hs] at h
+      simp only at h
+      have hcr : d.customer ∉ removed := hdisj d List.mem_cons_self
+      have hcd : d.customer ∉ done := by
+        intro hmem
+        rw [List.map_cons, List.nodup_append] at hnodup
+        exact hnodup.2.2 _ hmem _ List.mem_cons_self rfl
+      have hA : (applyAspaEvs s acc.2).get? d.customer = s.get? d.customer := hI2 _ hcr hcd
+      -- the step
+      unfold aspaAddStep at hs
+      cases hchk : aspaCheck holdsAsn d with
+      | some e => rw [hchk] at hs; cases hs
+      | none =>
+        rw [hchk] at hs
+        simp only at hs
+        have hne : d.providers ≠ [] := by
+          intro hc
+          unfold aspaCheck at hchk
+          simp [hc] at hchk
+        apply ih a1 (done ++ [d.customer])
+        · simpa [List.append_assoc] using hnodup
+        · intro x hx; exact hdisj x (List.mem_cons_of_mem _ hx)
+        · -- hI1 for the new state
+          intro c
+          cases hso : s.get? d.customer with
+          | none =>
+            rw [hso] at hs
+            simp only [Except.ok.injEq] at hs
+            subst hs
+            simp only
+            rw [applyAspaEvs_snoc]
+            simp only [applyAspaEv]
+            rw [AspaDefs.get?_addOrReplace, AspaDefs.get?_addOrReplace]
+            by_cases hc : c = d.customer
+            · simp only [hc, if_true]; exact sameProviders_refl _
+            · simp only [hc, if_false]; exact hI1 c
+          | some existing =>
+            rw [hso] at hs
+            simp only at hs
+            have hexc : existing.customer = d.customer := AspaDefs.get?_customer s _ _ hso
+            split at hs
+            · -- an update event
+              rename_i hnonempty
+              simp only [Except.ok.injEq] at hs
+              subst hs
+              simp only
+              rw [applyAspaEvs_snoc]
+              simp only [applyAspaEv]
+              rw [AspaDefs.get?_applyUpdate, AspaDefs.get?_addOrReplace]
+              by_cases hc : c = d.customer
+              · simp only [hc, if_true]
+                rw [hA, hso]
+                simp only
+                have hmem : ∀ p, p ∈ (existing.applyUpdate
+                    { added := d.providers.filter (fun p => !(existing.providers.contains p)),
+                      removed := existing.providers.filter (fun p => !(d.providers.contains p)) }).providers ↔
+                    p ∈ d.providers := by
+                  intro p
+                  rw [mem_applyUpdate]
+                  by_cases hpe : p ∈ existing.providers <;> by_cases hpd : p ∈ d.providers <;>
+                    simp [List.mem_filter, hpe, hpd]
+                have hnonE : (existing.applyUpdate
+                    { added := d.providers.filter (fun p => !(existing.providers.contains p)),
+                      removed := existing.providers.filter (fun p => !(d.providers.contains p)) }).providers.isEmpty = false := by
+                  obtain ⟨p, hp⟩ := List.exists_mem_of_ne_nil _ hne
+                  have := (hmem p).mpr hp
+                  cases hl : (existing.applyUpdate
+                    { added := d.providers.filter (fun p => !(existing.providers.contains p)),
+                      removed := existing.providers.filter (fun p => !(d.providers.contains p)) }).providers with
+                  | nil => rw [hl] at this; cases this
+                  | cons _ _ => rfl
+                rw [hnonE]
+                simp only [Bool.false_eq_true, if_false]
+                exact ⟨hexc, hmem⟩
+              · simp only [hc, if_false]; exact hI1 c
+            · -- no event: the definition is the same up to order
+              rename_i hempty
+              simp only [Except.ok.injEq] at hs
+              subst hs
+              simp only
+              rw [AspaDefs.get?_addOrReplace]
+              by_cases hc : c = d.customer
+              · simp only [hc, if_true]
+                rw [hA, hso]
+                refine ⟨hexc, ?_⟩
+                have he : (d.providers.filter (fun p => !(existing.providers.contains p))) = [] ∧
+                    (existing.providers.filter (fun p => !(d.providers.contains p))) = [] := by
+                  simpa [ProvUpdate.isEmpty, List.isEmpty_iff] using hempty
+                intro p
+                constructor
+                · intro hp
+                  apply Classical.byContradiction
+                  intro hn
+                  have : p ∈ existing.providers.filter (fun p => !(d.providers.contains p)) :=
+                    List.mem_filter.mpr ⟨hp, by simpa using hn⟩
+                  rw [he.2] at this; cases this
+                · intro hp
+                  apply Classical.byContradiction
+                  intro hn
+                  have : p ∈ d.providers.filter (fun p => !(existing.providers.contains p)) :=
+                    List.mem_filter.mpr ⟨hp, by simpa using hn⟩
+                  rw [he.1] at this; cases this
+              · simp only [hc, if_false]; exact hI1 c
+        · -- hI2 for the new state: customers other than this one are untouched
+          intro c hcr' hcd'
+          have hc : c ≠ d.customer := by
+            intro heq; apply hcd'; rw [heq]; simp
+          have hcd0 : c ∉ done := fun hm => hcd' (List.mem_append_left _ hm)
+          cases hso : s.get? d.customer with
+          | none =>
+            rw [hso] at hs
+            simp only [Except.ok.injEq] at hs
+            subst hs
+            simp only
+            rw [applyAspaEvs_snoc]
+            simp only [applyAspaEv]
+            rw [AspaDefs.get?_addOrReplace]
+            simp only [hc, if_false]
+            exact hI2 c hcr' hcd0
+          | some existing =>
+            rw [hso] at hs
+            simp only at hs
+            split at hs
+            · simp only [Except.ok.injEq] at hs
+              subst hs
+              simp only
+              rw [applyAspaEvs_snoc]
+              simp only [applyAspaEv]
+              rw [AspaDefs.get?_applyUpdate]
+              simp only [hc, if_false]
+              exact hI2 c hcr' hcd0
+            · simp only [Except.ok.injEq] at hs
+              subst hs
+              exact hI2 c hcr' hcd0
+        · exact h
+
 /-! ## BGPsec -/
 
 def bgpsecBase (s : BgpsecDefs) (before : List BgpsecKey) : BgpsecDefs :=
